@@ -195,12 +195,18 @@ func (d *f32Decoder) FromDom(vp unsafe.Pointer, node Node, ctx *context) error {
 	}
 
 	ret, ok := node.AsF64(ctx)
-	if !ok || ret > math.MaxFloat32 || ret < -math.MaxFloat32 {
+	if !ok || overflowFloat32(ret) {
 		return error_mismatch(node, ctx, float32Type)
 	}
 
 	*(*float32)(vp) = float32(ret)
 	return nil
+}
+
+// overflowFloat32 reports whether v does not fit float32 after rounding,
+// values between MaxFloat32 and the rounding midpoint above it still fit.
+func overflowFloat32(v float64) bool {
+	return math.IsInf(float64(float32(v)), 0)
 }
 
 type f64Decoder struct{}
